@@ -71,3 +71,45 @@ Proof.
   - apply nodup_dec_str. vm_compute. reflexivity.
   - vm_compute. discriminate.
 Qed.
+
+(* ---- C05: a merge that fails (second source unknown) *)
+Definition ex_imove_bad_b : xml :=
+  el "roItemMoveMultiple" [tx "roID" "RO"; tx "storyID" "B"; tx "itemID" "i3"; tx "itemID" "zz"; tx "itemID" "i1"].
+Definition ex_imove_bad : xml :=
+  el "mos" [tx "mosID" "M"; tx "ncsID" "N"; tx "messageID" "9"; ex_imove_bad_b].
+Lemma ex_failing_move :
+  exists (o : oracles) ro k m,
+  wf_ro ro = true /\ msg_ok m = true /\ r_err (add o ro k m) = Some MosMergeError.
+Proof. exists no_oracles, ex_ro, ItemMoveMultiple, ex_imove_bad. repeat split; vm_compute; reflexivity. Qed.
+
+(* ---- C12: a story without storyID makes find_child raise AttributeError *)
+Definition ex_ro_bad : xml :=
+  el "mos" [tx "messageID" "1"; el "roCreate" [tx "roID" "RO"; el "story" [tx "storySlug" "x"]]].
+Definition ex_del : xml :=
+  el "mos" [tx "messageID" "2"; el "roStoryDelete" [tx "roID" "RO"; tx "storyID" "A"]].
+Lemma ex_attribute_error :
+  exists (o : oracles) ro k m, r_err (add o ro k m) = Some PyAttributeError.
+Proof. exists no_oracles, ex_ro_bad, StoryDelete, ex_del. vm_compute. reflexivity. Qed.
+
+(* ---- C08: the rows of the two classification tables *)
+Definition doc_with (tag : str) : xml := el "mos" [tx "messageID" "1"; Elem tag [] None None []].
+Definition ea_doc (op : option str) (target_item source source_item : bool) : xml :=
+  el "mos" [Elem t_roElementAction (match op with Some o => [(t_operation, o)] | None => [] end) None None
+              ((el "element_target" (tx "storyID" "A" :: if target_item then [tx "itemID" "i"] else []))
+               :: if source then [el "element_source" (if source_item then [tx "itemID" "j"] else [tx "storyID" "B"])] else [])].
+Definition is_class_res (r : exn + mclass) (k : mclass) : bool :=
+  match r with inr k' => mclass_eqb k k' | inl _ => false end.
+Definition is_unknown (r : exn + mclass) : bool :=
+  match r with inl UnknownMosFileType => true | _ => false end.
+Definition class_table_ok : bool :=
+  forallb (fun tc => match snd tc with
+                     | Some k => is_class_res (classify (doc_with (fst tc))) k
+                     | None => true end) tag_class_map
+  && forallb (fun row => let '((op, t, s), k) := row in
+                         is_class_res (classify (ea_doc (Some op) t true s)) k) ea_table
+  && is_unknown (classify (ea_doc None false true false))
+  && is_unknown (classify (ea_doc (Some (lit "FROB")) false true false))
+  && is_unknown (classify (ea_doc (Some op_MOVE) false true true))
+  && is_unknown (classify (ea_doc (Some op_MOVE) false false false))
+  && is_unknown (classify (el "mos" [tx "messageID" "1"; tx "heartbeat" "x"]))
+  && is_unknown (classify (el "notmos" [])).
